@@ -215,7 +215,7 @@ package hsrv
 //@ func Server.serveHTTP(s, ctx) (err)
 //@   props C12
 //@   ghost nShutdown int = 0
-//@   on enter http.Server.Shutdown(h, c): nShutdown++
+//@   on enter http.Server.Shutdown(h, c): assert(c == ctx, "shutdown_waits_for_the_attached_shell_as_long_as_the_server_context_lives"); nShutdown++
 //@   on enter http.Server.Close(h): assert(false, "server_is_never_closed_abruptly")
 //@   ensures graceful_shutdown_once: nShutdown == 1
 
